@@ -626,7 +626,9 @@ class Parser:
             if x == "self":
                 if not self.class_depth:
                     raise ModelCompileError("Cannot use 'self' outside of a class.", t.line)
-                if self.fn_kinds[-1] == "static":
+                # the method a use of `self` belongs to is the innermost enclosing function that is not a plain
+                # function or lambda, however deeply the use is nested
+                if next((k_ for k_ in reversed(self.fn_kinds) if k_ != "function"), "script") == "static":
                     raise ModelCompileError("Cannot use 'self' in a static method.", t.line)
                 return Node("name", t.line, "self")
             if x == "Self":
